@@ -55,7 +55,7 @@ class RGen:
         """an operator kind without a structural slogdet rule (Sum, Transpose, Adjoint, Sliced, Tridiagonal, Householder,
         Sparse, KronSum, Concatenated, Product with non-square factors ...), from the shared tree generator"""
         r = self.r
-        g = T.Gen(r, kinds=[k for k in T.LEAF + T.COMP if k not in ("Concat",)], maxdim=3)
+        g = T.Gen(r, kinds=[k for k in T.LEAF + T.COMP if k not in ("Concat", "Sliced")], maxdim=3)
         g.sparse_sorted = True
         for _ in range(60):
             k = r.choice(["Sum", "Transp", "Adj", "Sliced", "ProdNS", "Tridiag", "House", "Sparse", "KronSum", "Sum", "Transp"])
@@ -93,6 +93,7 @@ class RGen:
                 continue
             try:
                 D = T.dense(t)
+                T.build(t)
             except Exception:
                 continue
             if D.shape != (n, n):
@@ -139,6 +140,7 @@ class RGen:
 
     def tree(self, depth, n=None, cplx=False, maxn=6):
         r = self.r
+        free = n is None
         if n is None:
             n = r.randint(1, 4)
         if depth <= 0 or r.random() < 0.2:
@@ -146,7 +148,7 @@ class RGen:
         opts = ["Prod", "leaf"]
         facs = [(a, n // a) for a in range(1, n + 1) if n % a == 0]
         if n <= maxn:
-            opts += ["Kron", "BDiag", "Kron", "BDiag", "Up"]
+            opts += ["Kron", "BDiag", "Kron", "BDiag"] + (["Up"] if free else [])
         k = r.choice(opts)
         d = depth - 1
         if k == "leaf":
@@ -266,10 +268,13 @@ def build(t):
     if k == "Prod":
         ms = [build(x) for x in t["ms"]]
         if t.get("via") == "matmul":
-            out = ms[0]
-            for m in ms[1:]:
-                out = out @ m
-            return out
+            try:
+                out = ms[0]
+                for m in ms[1:]:
+                    out = out @ m
+                return out
+            except Exception:   # dot(_, Identity) is ambiguous in the pinned tree (recorded under C04)
+                return ops.Product(*ms)
         if t.get("via") == "scalar":
             c = cval(t["ms"][0]["c"])
             c = c if t["ms"][0]["dt"] in T.CPLX else c.real
@@ -281,10 +286,13 @@ def build(t):
     if k == "Kron":
         ms = [build(x) for x in t["ms"]]
         if t.get("via") == "kron":
-            out = ms[0]
-            for m in ms[1:]:
-                out = cola.kron(out, m)
-            return out
+            try:
+                out = ms[0]
+                for m in ms[1:]:
+                    out = cola.kron(out, m)
+                return out
+            except Exception:   # kron(Kronecker, Kronecker) is ambiguous in the pinned tree (recorded under C04)
+                return ops.Kronecker(*ms)
         return ops.Kronecker(*ms)
     if k == "BDiag":
         return ops.BlockDiag(*[build(x) for x in t["ms"]], multiplicities=list(t["mu"]))
@@ -377,8 +385,23 @@ def base_dec(A, alg, need):
     elif which == "kry":
         import cola.linalg as cl
         t = cl.trace(cl.log(A, alg["obj"]), alg["trace_obj"])
-        dec.update(kt=complex(t))
+        dec.update(kt=complex(t), dense=D, uneven=uneven_krylov(D))
     return dec
+
+
+def uneven_krylov(D):
+    """do the unit vectors generate Krylov spaces of different dimensions (e.g. block-diagonal operators)?"""
+    n = D.shape[0]
+    dims = set()
+    for i in range(n):
+        v = np.zeros(n, dtype=np.complex128)
+        v[i] = 1
+        K = [v]
+        for _ in range(n - 1):
+            w = D @ K[-1]
+            K.append(w / max(np.linalg.norm(w), 1e-300))
+        dims.add(int(np.linalg.matrix_rank(np.array(K).T, tol=1e-8)))
+    return len(dims) > 1
 
 
 # ------------------------------------------------------------------ Coq printing
